@@ -47,7 +47,6 @@ ASSUMPTIONS = ["a region CFG's edges are the successors of each block's last ope
                "no oracle for queries whose target block is unreachable (outside the property); they are only counted"]
 JOB_TIMEOUT = {"quick": 900, "thorough": 3600}
 
-EXH_QUICK = 4  # exhaustive bound on blocks (ordered lists, length<=2) in both tiers
 CPU_GUARD_S = 5  # CPU seconds one DominanceInfo construction may take before it is declared non-terminating (normal: <1 ms)
 PO_CPU_GUARD_S = 0.5  # same for one complete post-order traversal (normal: ~20 us); small because a runaway stack eats memory
 MAX_HANGS = 8  # after that many non-terminations in one shard the mechanism is no longer exercised there (counted)
